@@ -149,16 +149,23 @@ def rule_error_path(ctx):
         ctx.missing(R, "generate_cfg")
     else:
         t = render(g["body"]).replace(" ", "")
-        ctx.check(R, "generate_cfg/both-stages-convert-errors", t.count("map_err(|error|Box::new(error.into()))") == 2 and ".into_cfg(" in t and ".into_ssa()" in t, t[:200], site(RUN, g))
+        import sgrep
+        okg = sgrep.has(g["body"], "__a.into_cfg(__c, __r).map_err(|__e| Box::new(__e.into()))?.into_ssa().map_err(|__f| Box::new(__f.into()))", sgrep.lets(g["body"]))
+        ctx.check(R, "generate_cfg/both-stages-convert-errors", okg, t[:200], site(RUN, g))
 
 
 def rule_add_files(ctx):
     R = "C02.3"
     ctx.rule(R, "every way through the loop body of FileStack::add_files for one command-line path either queues it, recurses into it, or pushes a report")
+    import alpha
     for name, effects in (("add_files", ("push", "add_files")),):
-        fn = find_fn(INC, name)
-        if fn is None:
+        fn0 = find_fn(INC, name)
+        if fn0 is None:
             ctx.missing(R, "FileStack::" + name)
+            continue
+        fn, miss = alpha.canon(fn0, [("paths", "param", 0), ("reports", "param", 1), ("path", "forvar", "paths"), ("entries", "oklet", "fs::read_dir(path)", "optional"), ("extension", "somelet", "path.extension()", "optional")])
+        if miss:
+            ctx.missing(R, "FileStack::%s/roles" % name, "cannot identify %s" % miss)
             continue
         loops = [n for n in walk(fn["body"]) if n["k"] == "For"]
         if len(loops) != 1:
